@@ -35,7 +35,7 @@ for h, needs, fn, can in (
         ("pl_helper", ["pl_boundsRejectPhs", "pl_phsRejectBounds", "pl_helper"], "PathLengthDirectInfSampler::sampleUniform(state, maxCost, iters)", [dict(name="success_without_sampling", where="body:pl_helper", rx=r"foundSample = pl_phsRejectBounds\(iters\);", repl="foundSample = true;")]),
         ("pl_minmax", ["pl_boundsRejectPhs", "pl_phsRejectBounds", "pl_helper", "pl_minmax"], "PathLengthDirectInfSampler::sampleUniform(state, minCost, maxCost)", [dict(name="lower_bound_ignored", where="body:pl_minmax", rx=r"foundSample = NOT_BELOW_MIN\(minCost, sampledCost\);", repl="NOT_BELOW_MIN(minCost, sampledCost);")])):
     UNITS.append(dict(defines=({"DIRECT_SAMPLER": 1} if h.startswith("pl_") else {}), **dict(name="c15_" + h, template="C15/informed.c", mode="plain", entry="h_" + h, sources=SRC, needs=needs, flags=FLAGS, unwind=10, level="bounded", bound="numIters_ <= 3", backend="minisat", timeout=300, tiers={"thorough": {"defines": {"NI_MAX": 7}, "unwind": 14, "bound": "numIters_ <= 7", "timeout": 900}}, functions=["ompl::base::" + fn], canaries=can)))
-ASSUMPTIONS = ["the base state sampler yields states within the space bounds (its own contract: C08)", "membership in a prolate hyperspheroid of transverse diameter c is equivalent to a heuristic path-length cost below c (geometry, trusted)",
+ASSUMPTIONS = ["the base state sampler yields states within the space bounds (its own contract: C08)", "the path length focus1 -> x -> focus2 computed by ProlateHyperspheroid::getPathLength is the heuristic cost of x for that start/goal pair (Eigen norms, trusted); given that, membership <=> cost strictly below the diameter and diameter == cost bound are CHECKED (c15_phs_isInPhs, c15_updatePhs)",
                "costs are non-NaN doubles compared by the minimising order", "numIters_ <= 10^9 and fewer than 10^9 earlier draws (32-bit counters do not wrap)"]
 TRUSTED = ["extraction rewrite table of units/C15.py", "stub contracts in units/C15/informed_unb.c and stubs in units/C15/informed.c", "CBMC 6.11 (goto-instrument DFCC) + minisat"]
 NOT_COVERED = ["the prolate-hyperspheroid transform (unit sphere surface -> summed focal distance = c), the analytic measure, uniformity of the samples, 'no improving state is excluded' (Eigen linear algebra, transcendental formulas, a distributional claim)",
@@ -158,3 +158,27 @@ UNITS.append(dict(name="c15_getInformedMeasure", template="C15/phs_misc.c", mode
 UNITS.append(dict(name="c15_phs_membership", template="C15/phs_misc.c", mode="plain", entry="h_membership", sources=M_SRC, needs=["pl_isInAnyPhs", "pl_numberOfPhsInclusions"], flags=FLAGS, unwind=18, backend="minisat", timeout=300, level="bounded", bound="<= 4 hyperspheroids",
                   functions=["ompl::base::PathLengthDirectInfSampler::isInAnyPhs", "ompl::base::PathLengthDirectInfSampler::numberOfPhsInclusions"],
                   canaries=[dict(name="only_last_membership_counts", where="body:pl_isInAnyPhs", rx=r"&& !inPhs;", repl=";"), dict(name="count_resets", where="body:pl_numberOfPhsInclusions", rx=r"\+\+numInclusions;", repl="numInclusions = 1u;")]))
+
+# ---- ProlateHyperspheroid membership / diameter, and updatePhsDefinitions ----
+PHS = "src/ompl/util/src/ProlateHyperspheroid.cpp"
+P_RULES = [(r"dataPtr_->", "", 1), (r"getPathLength\(point\)", "PATH_LEN()", 0), (r"OMPL_ERROR\([^;]*\);", "", 0), (r"updateTransformation\(\);", "UPDATE_TRANSFORM();", 0)]
+PB = P_RULES + [(r"throw Exception\(\"[^\"]*\"\);", "THROW_BOOL;", 1)]
+PV = P_RULES + [(r"throw Exception\(\"[^\"]*\"\);", "THROW_VOID;", 1)]
+U_RULES = [(r"auto phsIter = listPhsPtrs_\.begin\(\);", "unsigned phsIter = 0;", 1), (r"phsIter != listPhsPtrs_\.end\(\)", "phsIter != L_N", 1), (r"\(\*phsIter\)->getMinTransverseDiameter\(\)", "MIN_DIAM(L[phsIter])", 2),
+           (r"maxCost\.value\(\)", "maxCost", 2), (r"\(\*phsIter\)->setTransverseDiameter\(([^;]+)\);", r"SET_DIAM(L[phsIter], \1);", 2),
+           (r"summedMeasure_ = summedMeasure_ \+ \(\*phsIter\)->getPhsMeasure\(\);", "summedMeasure_ = ADD_M(summedMeasure_, L[phsIter]);", 1), (r"listPhsPtrs_\.size\(\)", "L_N", 1),
+           (r"phsIter = listPhsPtrs_\.erase\(phsIter\);", "ERASE_AT(phsIter);", 1)]
+D_SRC = [
+    dict(name="phs_isInPhs", file=PHS, sig=r"bool ompl::ProlateHyperspheroid::isInPhs\(const double point\[\]\) const", rules=PB, loops={}),
+    dict(name="phs_isOnPhs", file=PHS, sig=r"bool ompl::ProlateHyperspheroid::isOnPhs\(const double point\[\]\) const", rules=PB, loops={}),
+    dict(name="phs_setTransverseDiameter", file=PHS, sig=r"void ompl::ProlateHyperspheroid::setTransverseDiameter\(double transverseDiameter\)", rules=PV, loops={}),
+    dict(name="pl_updatePhsDefinitions", file=PL, sig=r"void PathLengthDirectInfSampler::updatePhsDefinitions\(const Cost &maxCost\)", rules=U_RULES, loops={"allow_uncontracted": True}),
+]
+for h, needs, fn, lvl, bound, can in (
+        ("phs_isInPhs", ["phs_isInPhs", "phs_isOnPhs"], ["ompl::ProlateHyperspheroid::isInPhs", "ompl::ProlateHyperspheroid::isOnPhs"], "proof", None, [dict(name="membership_not_strict", where="body:phs_isInPhs", rx=r"PATH_LEN\(\) < transverseDiameter_", repl="PATH_LEN() <= transverseDiameter_")]),
+        ("phs_setDiameter", ["phs_setTransverseDiameter"], ["ompl::ProlateHyperspheroid::setTransverseDiameter"], "proof", None, [dict(name="transform_left_stale", where="body:phs_setTransverseDiameter", rx=r"UPDATE_TRANSFORM\(\);", repl="")]),
+        ("updatePhs", ["pl_updatePhsDefinitions"], ["ompl::base::PathLengthDirectInfSampler::updatePhsDefinitions"], "bounded", "<= 3 hyperspheroids", [dict(name="useless_ones_kept", where="body:pl_updatePhsDefinitions", rx=r"ERASE_AT\(phsIter\);", repl="++phsIter;"),
+                                                                                                                                              dict(name="diameter_not_updated", where="body:pl_updatePhsDefinitions", rx=r"SET_DIAM\(L\[phsIter\], maxCost\);", repl="")])):
+    u = dict(name="c15_" + h, template="C15/phs_def.c", mode="plain", entry="h_" + h, sources=D_SRC, needs=needs, flags=FLAGS, unwind=10, backend="minisat", timeout=300, level=lvl, functions=fn, canaries=can)
+    if bound: u["bound"] = bound
+    UNITS.append(u)
